@@ -89,7 +89,8 @@ TD16_QUICK = [('tdigest.rs', 'c16_td_insert_weighted_inner', 'complete: all fini
               ('tdigest.rs', 'c16_td_insert_weighted_concrete_grid', 'bounded(30 concrete (x, w) pairs with inexact products; constant folding only)'),
               ('tdigest.rs', 'c19_td_clear_is_fresh', 'bounded(2 centroids + 1 backlog entry): clear() empties the digest'),
               ('tdigest.rs', 'c15_td_empty', 'complete: empty digest')]
-TD16_THOROUGH = [('tdigest.rs', 'c16_td_merge_1_1', 'bounded(1 centroid + 1 backlog entry; adversarial scale function)')]
+TD16_MERGE = [('tdigest.rs', 'c16_td_merge_1_1', 'bounded(1 centroid + 1 backlog entry; adversarial scale function)')]
+TD16_THOROUGH = []
 TD19 = [('tdigest.rs', 'c19_td_clear_is_fresh', 'bounded(2 centroids + 1 backlog entry)')]
 
 PROPS = {}
@@ -160,10 +161,10 @@ PROPS['C11'] = {
             ('helpers.rs', 'c11_all_zero_intvector_usize', 'complete in element_bits (1..=64); bounded(len<=4)'),
             ('filters__quotientfilter.rs', 'c11_qf_table_sizes', 'bounded((bq,br)=(3,5))'),
             ('countminsketch.rs', 'c02_cms_add_u8_2x3', 'bounded((w,d)=(2,3)): table.len()==w*d before and after add'),
+            ('tdigest.rs', 'c16_td_merge_1_1', 'bounded(1 centroid + 1 backlog; adversarial scale function): merge empties the backlog, never creates centroids, and hands the scale function ranks in [0,1] (weights normalised by the total weight)'),
         ],
         'thorough': [
             ('helpers.rs', 'intvector_stub_set_get', 'bounded(2 blocks): cross-check of the Verus IntVector stub against succinct'),
-            ('tdigest.rs', 'c16_td_merge_1_1', 'bounded(1 centroid + 1 backlog): merge empties the backlog and never creates centroids'),
         ],
     },
     'explanation': 'allocation-size contracts proved by Verus for all sizes (all_zero_intvector block count = ceil(bits*len/W); Bloom m bits; Cuckoo/HLL/Reservoir table sizes; Quotient: 2^bq slots in three bit arrays + slots x remainder bits rounded up to one block, and no operation ever changes a length (same_shape); CMS: exactly w*d counters, add_n/merge/clear keep the length; growth bounded by representation invariants preserved by every verified operation; clear() keeps sizes). Bounded Kani harnesses cross-check the IntVector/table sizes on the real dependency and give the TDigest backlog bound (backlog <= max_backlog_size after every insert).',
@@ -216,7 +217,7 @@ PROPS['C15'] = {
 PROPS['C16'] = {
     'level': 'other',
     'verus_units': [],
-    'kani': {'quick': TD16_QUICK, 'thorough': TD16_THOROUGH},
+    'kani': {'quick': TD16_QUICK + TD16_MERGE, 'thorough': TD16_THOROUGH},
     'explanation': 'insert_weighted: complete Kani harness over the full f64 domain (min/max exact, backlog entry exact, zero weight is a no-op); merge(): bounded harness with an ADVERSARIAL scale function (f/f_inv return arbitrary values on every call) showing count()/sum() conserved, means sorted, min/max untouched for every merge schedule.',
     'trusted_base': COMMON_TRUST,
     'assumptions': ['merge harness: small integer weights/sums so f64 addition is exact; <= 1 centroid + 1 backlog entry', '"to floating-point accumulation accuracy" for non-integer weights is assumed'],
